@@ -480,7 +480,7 @@ def retryingRec : Rec :=
 def envW (prematch : Bool) : Env :=
   { owned := ["c0", "u0"], subs := [], sel := fun c => if c.reason = .create then ["c0"] else [],
     limits := fun _ => ⟨none, none⟩, lifecycle := .asap, exec := fun _ _ => okOutcome,
-    prematch := prematch, changeReq := false, foreignFins := false, constPatch := false, lat := 1, cap := 38400 }
+    prematch := prematch, changeReq := false, foreignFins := false, constPatch := false, lat := 1, rtt := 1, cap := 38400 }
 
 def stateW (base : Option Nat) (ess : Nat) : State Nat :=
   { P := fun i => if i = "u0" then some retryingRec else none, base := base, ess := ess,
@@ -488,7 +488,7 @@ def stateW (base : Option Nat) (ess : Nat) : State Nat :=
     noticed := false, fullyHandled := true, now := 256, pending := true, writes := 0 }
 
 theorem envW_wf (b : Bool) : WF (envW b) := by
-  refine ⟨?_, by cases b <;> decide, by cases b <;> decide⟩
+  refine ⟨?_, by cases b <;> decide, by cases b <;> decide, by cases b <;> decide⟩
   intro c i hi
   simp only [envW] at hi ⊢
   split at hi
@@ -546,7 +546,7 @@ def envA : Env :=
   { owned := ["u1", "u2"], subs := [], sel := fun c => if c.reason = .update then ["u1", "u2"] else [],
     limits := fun _ => ⟨none, none⟩, lifecycle := .allAtOnce,
     exec := fun i n => if i = "u2" ∧ n = 0 then tempOutcome 64 else okOutcome,
-    prematch := true, changeReq := false, foreignFins := false, constPatch := false, lat := 1, cap := 38400 }
+    prematch := true, changeReq := false, foreignFins := false, constPatch := false, lat := 1, rtt := 1, cap := 38400 }
 
 def stateA : State Nat :=
   { P := fun _ => none, base := some 0, ess := 1, marked := false, blocked := false, gone := false,
@@ -581,7 +581,7 @@ def envD (foreign : Bool) : Env :=
   { owned := ["d0"], subs := [], sel := fun c => if c.reason = .delete then ["d0"] else [],
     limits := fun _ => ⟨none, none⟩, lifecycle := .asap,
     exec := fun _ n => if n = 0 then tempOutcome 64 else okOutcome,
-    prematch := true, changeReq := true, foreignFins := foreign, constPatch := false, lat := 1, cap := 38400 }
+    prematch := true, changeReq := true, foreignFins := foreign, constPatch := false, lat := 1, rtt := 1, cap := 38400 }
 
 def stateD : State Nat :=
   { P := fun _ => none, base := some 0, ess := 0, marked := true, blocked := true, gone := false,
@@ -597,7 +597,7 @@ def stateN : State Nat :=
 -- meets the hypotheses; its bound is 2·2 + 0 + 0 + 1 + 0 = 5 and the loop needs 4 turns (invoke both, sleep +
 -- touch, invoke the retry and close, echo of the closing PATCH); turns 0..1 are open, turn 2 closes
 example : WF envA ∧ AllFinal { envA with exec := fun _ _ => okOutcome } ∧ Uniform envA stateA := by
-  refine ⟨⟨?_, by decide, by decide⟩, fun _ _ => rfl, ⟨"update", fun i _ r h => by simp [stateA] at h⟩⟩
+  refine ⟨⟨?_, by decide, by decide, by decide⟩, fun _ _ => rfl, ⟨"update", fun i _ r h => by simp [stateA] at h⟩⟩
   intro c i hi
   simp only [envA] at hi ⊢
   split at hi
